@@ -386,6 +386,11 @@ class Sccp:
         c = op_const(op)
         if c is not None and c.get("val") is not None:
             return I(c["val"])
+        if c is not None and isinstance(c.get("str"), str):
+            import re as _re
+            m = _re.match(r"promoted\{(\d+)_\w+, core::option::Option::Some\}", c["str"])
+            if m:
+                return V("Some", I(int(m.group(1))))
         return None
 
     def _field_value(self, place):
@@ -737,6 +742,27 @@ def combinator_model(facts, inner=None, depth=0, field_model=None, callees=None)
         p = call.path
         a0 = argv[0] if argv else None
         va = variant(a0)
+        if p in ("core::cmp::PartialEq::eq", "core::cmp::PartialEq::ne") and len(argv) == 2 and \
+                all(a is not None and a[0] in ("i", "v") for a in argv):
+            def known(v):
+                return v is not None and (v[0] == "i" or (v[0] == "v" and (v[2] is None or known(v[2]))))
+
+            def differ(a, b):
+                # True / False / None (cannot tell: equal variants whose payloads are not both known)
+                if a[0] != b[0]:
+                    return True
+                if a[0] == "i":
+                    return a[1] != b[1]
+                if a[1] != b[1]:
+                    return True
+                if a[2] is None and b[2] is None:
+                    return None if a[1] in ("Some", "Ok", "Err") else False
+                if a[2] is None or b[2] is None:
+                    return None
+                return differ(a[2], b[2])
+            d = differ(argv[0], argv[1])
+            if d is not None:
+                return I(int(d if p.endswith("::ne") else not d))
         if p.endswith(("Option::map_or", "Result::map_or")):
             if va in ("None", "Err"):
                 return argv[1]
